@@ -543,11 +543,18 @@ class _Conv(object):
         clauses = parse_omp_clauses(text)
         # clause nodes (kind-less) carry resolved variable lists; zip with textual clauses that have args
         # clang emits one node per clause (including argument-less ones such as nowait? they have no inner)
-        if len(clause_nodes) != len(clauses["list"]):
+        out = []
+        tlist = list(clauses["list"])
+        if len(clause_nodes) != len(tlist):
+            # clang gives no variable-list node for default(none|shared): keep it as a clause without expressions
+            novars = [c for c in tlist if c[0] == "default"]
+            tlist = [c for c in tlist if c[0] != "default"]
+            for ck, cargs in novars:
+                out.append((ck, cargs, []))
+        if len(clause_nodes) != len(tlist):
             raise AnalysisError("%s:%s OpenMP clause count mismatch: text %r has %d clauses, AST has %d"
                                 % (self.rel, line, text, len(clauses["list"]), len(clause_nodes)))
-        out = []
-        for (ck, cargs), cn in zip(clauses["list"], clause_nodes):
+        for (ck, cargs), cn in zip(tlist, clause_nodes):
             exprs = [self.expr(x) for x in (cn.get("inner") or []) if x and x.get("kind")]
             out.append((ck, cargs, exprs))
         body = self.stmt(body_nodes[0]) if body_nodes else S("null")
